@@ -49,4 +49,32 @@ theorem vst_calls_kernel_rule_in_both_branches :
     "validateKernelSnapshot*2" ∈ Gen.kernel_Node_validateSnapshotTransaction_calls ∧
       "lockAndPersistTransaction*1" ∈ Gen.kernel_Node_validateSnapshotTransaction_calls := by decide
 
+/-- the output types for which `writeUTXO` applies state: the five membership / custodian
+    types of `OType.consensusEffect` in `Model/ConsensusEffects.lean`, and the withdrawal claim
+    record (no membership or custodian state) -/
+theorem writeUTXO_effect_types :
+    Gen.storage_writeUTXO_switch.map (·.1) =
+      [["common.OutputTypeNodePledge"], ["common.OutputTypeNodeCancel"], ["common.OutputTypeNodeAccept"],
+       ["common.OutputTypeNodeRemove"], ["common.OutputTypeCustodianUpdateNodes"],
+       ["common.OutputTypeWithdrawalClaim"]] := by decide
+
+/-- `TransactionType()`: the class is the class of the first special output -/
+theorem transactionType_table :
+    Gen.common_SignedTransaction_TransactionType_switch =
+      [(["OutputTypeWithdrawalSubmit"], "TransactionTypeWithdrawalSubmit"),
+       (["OutputTypeWithdrawalClaim"], "TransactionTypeWithdrawalClaim"),
+       (["OutputTypeNodePledge"], "TransactionTypeNodePledge"),
+       (["OutputTypeNodeCancel"], "TransactionTypeNodeCancel"),
+       (["OutputTypeNodeAccept"], "TransactionTypeNodeAccept"),
+       (["OutputTypeNodeRemove"], "TransactionTypeNodeRemove"),
+       (["OutputTypeCustodianUpdateNodes"], "TransactionTypeCustodianUpdateNodes"),
+       (["OutputTypeCustodianSlashNodes"], "TransactionTypeCustodianSlashNodes")] := by decide
+
+/-- `UnspentOutputs()`: which output types finalization materialises (and hands to `writeUTXO`) -/
+theorem unspentOutputs_table :
+    Gen.common_VersionedTransaction_UnspentOutputs_switch.map (·.1) =
+      [["OutputTypeScript", "OutputTypeNodePledge", "OutputTypeNodeCancel", "OutputTypeNodeAccept",
+        "OutputTypeNodeRemove", "OutputTypeWithdrawalClaim", "OutputTypeCustodianUpdateNodes"],
+       ["OutputTypeWithdrawalSubmit", "OutputTypeCustodianSlashNodes"], ["default"]] := by decide
+
 end Mixin.Facts.ExpectedC28
